@@ -53,7 +53,7 @@ CHECKS = {
               "other path is touched; every shutil.copytree/rmtree precondition holds (no FileExistsError). update_stats, "
               "get_batches, stop_condition are proved exact; the batch loop _run keeps passed+failed equal to the number of "
               "programs handed to the generator, passes disjoint pid ranges, and process_res (sequential) maps pids to results "
-              "and records exactly the reported programs in STATS['faults'] / faults.json. Also under contract: the pool callback (the batch size handed to update_stats) and src.args.validate_args (returns only if no session directory of that name exists and at most one stop condition is set). gen_program is under its own contract (slice mode, obligations at both return statements): a normal record lists the well-typed program as expected-to-compile and the ill-typed one -- only when the fault-injecting stage produced one and that stage is enabled -- as expected-to-be-rejected together with its message, carries no message otherwise, and a failed record is produced exactly on the exception path."),
+              "and records exactly the reported programs in STATS['faults'] / faults.json. Also under contract: the pool callback (the batch size handed to update_stats) and src.args.validate_args (returns only if no session directory of that name exists and at most one stop condition is set). gen_program is under its own contract (slice mode, obligations at both return statements): a normal record lists the well-typed program as expected-to-compile and the ill-typed one -- only when the fault-injecting stage produced one and that stage is enabled -- as expected-to-be-rejected together with its message, carries no message otherwise, and a failed record is produced exactly on the exception path; ProgramProcessor.inject_fault and process_ncp_transformations hand the mutation's own message (and the mutated program) up to that record unchanged, and nothing when the mutation reports that nothing was injected."),
         note=("worker-pool mode: only the sequential shape of run_parallel's shutdown is verified (ghost pool life cycle: on the "
               "path without KeyboardInterrupt the pool is closed and joined, never terminated; 4 syntactic shape obligations), "
               "its concurrency is outside this family; the bounded stand-in takes the per-program record from the real "
@@ -232,9 +232,9 @@ CHECKS = {
         design='DESIGN.md section 10.3 (C03/C04)'),
     'C18': dict(
         level='exploration',
-        technique='proof part (pyvc + z3, slice mode): 31 site obligations over 25 functions of the generator / the mutations -- every ut.random.integer / choice / sample draw whose argument can be shown non-empty from the function itself plus the configuration invariants (6 syntactic config obligations); bounded stand-in for everything else: the real pipeline (generate, translate, TypeErasure, translate, TypeOverwriting, translate) run for a finite list of language x seed x switches x depth limit x mutation options; no exception in any stage, work budgets for termination, erasure search budget, and a nesting bound derived from the generator code as a function of the configured depth',
+        technique='proof part (pyvc + z3, slice mode): 31 site obligations over 25 functions of the generator / the mutations / the subtype search -- every ut.random.integer / choice / sample draw whose argument can be shown non-empty from the function itself plus the configuration invariants (6 syntactic config obligations); bounded stand-in for everything else: the real pipeline (generate, translate, TypeErasure, translate, TypeOverwriting, translate) run for a finite list of language x seed x switches x depth limit x mutation options; no exception in any stage, work budgets for termination, erasure search budget, and a nesting bound derived from the generator code as a function of the configured depth',
         text=("PROVED (part): three of the crash classes the property names (empty range in randint, empty candidate list in choice, "
-              "over-sized sample) cannot occur at 31 of the 60 draw sites of the pipeline (contracts/ranges.py; one assumed "
+              "over-sized sample) cannot occur at 31 of the 60 draw sites of the pipeline (contracts/ranges.py; one of them, the draw in _construct_related_types, failed on the unchanged tree -- IndexError of the subtype search on a primitive array -- and was repaired in /repo; two earlier 'proofs' were vacuous because of an engine bug, DESIGN 10.2 item 6: one is now proved for real, one was withdrawn; one assumed "
               "precondition, gen_type_params count <= 4, checked at run time in the bounded tier; configuration limits as global "
               "invariants justified by a census of config.py defaults and stores). The other 29 draws depend on what a callee "
               "returns and stay bounded. "
@@ -244,7 +244,7 @@ CHECKS = {
               "None dereference) for the functions under deductive contract in C19/C16/C15/C06/C07/C14, but that is a small "
               "part of the pipeline. The bounded check runs every stage of the real pipeline per input and reports the "
               "innermost repository frame of any exception, work-budget overruns, and nesting beyond f(d)=2*max(2d+1,d+3). "
-              "One genuine defect found and repaired in /repo (TypeParameter.has_bound_of dereferenced a None factory). The try/except shape of hephaestus.gen_program (every stage inside the try; the handler catches Exception, never re-raises, returns a failed ProgramRes) is checked syntactically; bounded additions: nesting of Program.get_types() on an all-generic program, reset_word_pool restores the identifier pool, the mutations on the hand-built programs of the C03/C04 harness never raise, candidate combinations of the erasure search are drawn lazily (<= max_combinations + 2 per function)."),
+              "One genuine defect found and repaired in /repo (TypeParameter.has_bound_of dereferenced a None factory). The try/except shape of hephaestus.gen_program (every stage inside the try; the handler catches Exception, never re-raises, returns a failed ProgramRes) is checked syntactically; bounded additions: the driver's own stage loop (real gen_program through --replay on hand-built programs, --transformations 0..3), the searches on primitive arrays, nesting of Program.get_types() on an all-generic program, reset_word_pool restores the identifier pool, the mutations on the hand-built programs of the C03/C04 harness never raise, candidate combinations of the erasure search are drawn lazily (<= max_combinations + 2 per function)."),
         note="bounded: quick 73 inputs (4 languages x seeds 1-8, depth limits 1-4, 2 switch combinations, max_combinations 1-2, timeout 0); thorough 532 inputs (50 seeds per language, depth limits up to 8, 15 switch combinations); termination is a budget, never proved",
         design='DESIGN.md section 4 (C18)'),
 }
